@@ -1,8 +1,32 @@
 #[path = "c03/hist.rs"]
 mod hist;
+#[path = "c03/extra.rs"]
+mod extra;
+
+fn show(o: extra::ExtraOutcome) {
+    println!("evaluations={} checks={} frames_compared={} violations={}", o.evaluations, o.oracle_checks, o.frames_compared, o.violations.len());
+    for (k, v) in &o.distribution {
+        println!("  {k}: {v}");
+    }
+    for v in &o.violations {
+        println!("VIOLATION case={} class={} what={}", v.case_id, v.class, v.what);
+        println!("   replay={}", v.replay);
+    }
+    for n in &o.notes {
+        println!("NOTE {n}");
+    }
+}
 
 fn main() {
     let av: Vec<String> = std::env::args().collect();
+    // c03histdev writers <seed> <rounds> <per-writer> | c03histdev long <files>
+    if av.get(1).map(|s| s.as_str()) == Some("writers") {
+        let g = |i: usize, d: u64| av.get(i).and_then(|s| s.parse().ok()).unwrap_or(d);
+        return show(extra::concurrent_writers(g(2, 1), g(3, 4) as usize, g(4, 300) as usize));
+    }
+    if av.get(1).map(|s| s.as_str()) == Some("long") {
+        return show(extra::long_session(av.get(2).and_then(|s| s.parse().ok()).unwrap_or(3000)));
+    }
     let seed: u64 = av.get(1).and_then(|s| s.parse().ok()).unwrap_or(1);
     let n: usize = av.get(2).and_then(|s| s.parse().ok()).unwrap_or(30);
     let t0 = std::time::Instant::now();
